@@ -1684,6 +1684,10 @@ int ov_pcm_seek_page(OggVorbis_File *vf,ogg_int64_t pos){
               return ov_raw_seek(vf,result);
             }
           }
+          /* rewound to the beginning of the link data without finding
+             where the packet starts; the stream is broken */
+          result=OV_EBADPACKET;
+          goto seek_error;
         }
         if(result<0){
           result = OV_EBADPACKET;
